@@ -1,2 +1,183 @@
 mod adapter;
-fn main(){ let _ = adapter::Ind::new("SMA",&[3],1.0); }
+mod replay;
+mod units;
+
+use serde_json::{json, Value};
+use std::io::{BufRead, BufReader, Write};
+
+fn arg(args: &[String], name: &str) -> Option<String> {
+    args.iter().position(|a| a == name).and_then(|i| args.get(i + 1).cloned())
+}
+
+/// TLC prints `<<"REPLAY", "{\"ops\":...}">>`; return the JSON text inside, if this is such a line.
+pub fn tlc_payload(line: &str, tag: &str) -> Option<String> {
+    let prefix = format!("<<\"{}\", \"", tag);
+    let l = line.trim_end();
+    if !l.starts_with(&prefix) || !l.ends_with("\">>") {
+        return None;
+    }
+    let inner = &l[prefix.len()..l.len() - 3];
+    let mut out = String::with_capacity(inner.len());
+    let mut it = inner.chars();
+    while let Some(c) = it.next() {
+        if c == '\\' {
+            match it.next() {
+                Some('"') => out.push('"'),
+                Some('\\') => out.push('\\'),
+                Some('n') => out.push('\n'),
+                Some('t') => out.push('\t'),
+                Some(o) => {
+                    out.push('\\');
+                    out.push(o)
+                }
+                None => {}
+            }
+        } else {
+            out.push(c);
+        }
+    }
+    Some(out)
+}
+
+fn read_behaviours(path: &str) -> Vec<(u64, String)> {
+    let f = std::fs::File::open(path).unwrap_or_else(|e| {
+        eprintln!("cannot open {}: {}", path, e);
+        std::process::exit(2)
+    });
+    let mut v = vec![];
+    // STEP lines (one per transition of a scripted run) are reassembled into one behaviour
+    let mut ops: Vec<Value> = vec![];
+    let mut obs: Vec<Value> = vec![];
+    for (n, line) in BufReader::new(f).lines().enumerate() {
+        let line = line.unwrap();
+        if let Some(p) = tlc_payload(&line, "REPLAY") {
+            v.push((n as u64 + 1, p));
+        } else if let Some(p) = tlc_payload(&line, "STEP") {
+            let s: Value = serde_json::from_str(&p).unwrap_or_else(|e| {
+                eprintln!("bad STEP line {}: {}", n + 1, e);
+                std::process::exit(2)
+            });
+            ops.push(s["op"].clone());
+            obs.push(s["ob"].clone());
+        } else if line.starts_with('{') {
+            v.push((n as u64 + 1, line));
+        }
+    }
+    if !ops.is_empty() {
+        v.push((0, serde_json::to_string(&json!({"ops": ops, "obs": obs})).unwrap()));
+    }
+    v
+}
+
+fn cmd_replay(args: &[String]) -> i32 {
+    let prop = arg(args, "--prop").expect("--prop");
+    let tier = arg(args, "--tier").unwrap_or("quick".into());
+    let seed: u64 = arg(args, "--seed").and_then(|s| s.parse().ok()).unwrap_or(0);
+    let input = arg(args, "--in").expect("--in");
+    let out = arg(args, "--out").expect("--out");
+    let threads: usize = arg(args, "--threads").and_then(|s| s.parse().ok()).unwrap_or(8);
+    let only_line: Option<u64> = arg(args, "--line").and_then(|s| s.parse().ok());
+    let max_units: usize = arg(args, "--max-units").and_then(|s| s.parse().ok()).unwrap_or(1000);
+    let mut units = units::unit_list(&tier, seed);
+    if let Some(u) = arg(args, "--unit") {
+        let v: Value = serde_json::from_str(&u).expect("--unit json");
+        units = vec![units::Unit { a: v["a"].as_f64().unwrap(), b: v["b"].as_f64().unwrap(), av: v["av"].as_f64().unwrap(), big: v["big"].as_f64().unwrap() }];
+    }
+    units.truncate(max_units);
+    let lines = read_behaviours(&input);
+    let lines: Vec<(u64, String)> = match only_line {
+        Some(n) => lines.into_iter().filter(|(k, _)| *k == n).collect(),
+        None => lines,
+    };
+    let nl = lines.len();
+    let chunk = (nl + threads - 1) / threads.max(1);
+    let lines = std::sync::Arc::new(lines);
+    let units = std::sync::Arc::new(units);
+    // a panic inside the code under test is data: keep the default hook quiet
+    std::panic::set_hook(Box::new(|_| {}));
+    let mut handles = vec![];
+    for th in 0..threads {
+        let lines = lines.clone();
+        let units = units.clone();
+        let prop = prop.clone();
+        handles.push(std::thread::spawn(move || {
+            let mut ctx = replay::Ctx::new(&prop);
+            let lo = th * chunk;
+            let hi = ((th + 1) * chunk).min(lines.len());
+            let mut samples: Vec<Value> = vec![];
+            for k in lo..hi.max(lo) {
+                let (no, text) = &lines[k];
+                let v: Value = match serde_json::from_str(text) {
+                    Ok(v) => v,
+                    Err(e) => {
+                        eprintln!("bad behaviour line {}: {}", no, e);
+                        std::process::exit(2);
+                    }
+                };
+                if samples.len() < 1 {
+                    samples.push(v.clone());
+                }
+                for u in units.iter() {
+                    if let Some(uu) = replay::unit_ok(&v, u) {
+                        let mut run = replay::Run::new(&uu, *no);
+                        run.exec(&mut ctx, &v);
+                    }
+                }
+            }
+            (ctx, samples)
+        }));
+    }
+    let mut stats = replay::Stats::default();
+    let mut violations: Vec<Value> = vec![];
+    let mut vio_total = 0u64;
+    let mut distinct = std::collections::HashSet::new();
+    let mut samples = vec![];
+    for h in handles {
+        let (c, s) = h.join().expect("worker thread");
+        let a = &c.stats;
+        stats.behaviours += a.behaviours;
+        stats.ops += a.ops;
+        stats.steps += a.steps;
+        stats.fields_compared += a.fields_compared;
+        stats.skipped_ill += a.skipped_ill;
+        stats.skipped_undef += a.skipped_undef;
+        stats.skipped_ovf += a.skipped_ovf;
+        stats.skipped_tainted += a.skipped_tainted;
+        stats.det_compared += a.det_compared;
+        stats.eff_compared += a.eff_compared;
+        stats.range_checked += a.range_checked;
+        stats.deg_checked += a.deg_checked;
+        stats.ord_checked += a.ord_checked;
+        stats.ord_zero_slack += a.ord_zero_slack;
+        stats.returns_checked += a.returns_checked;
+        stats.size_checked += a.size_checked;
+        stats.panics += a.panics;
+        stats.max_rel_err = stats.max_rel_err.max(a.max_rel_err);
+        vio_total += c.vio_total;
+        violations.extend(c.violations);
+        distinct.extend(c.distinct);
+        samples.extend(s);
+    }
+    samples.truncate(3);
+    let res = json!({
+        "prop": prop, "tier": tier, "seed": seed, "lines": nl, "units": units.len(),
+        "unit_labels": units.iter().map(|u| u.label()).collect::<Vec<_>>(),
+        "stats": replay::stats_json(&stats), "distinct": distinct.len(),
+        "violations_total": vio_total, "violations": violations, "samples": samples
+    });
+    let mut f = std::fs::File::create(&out).expect("create out");
+    f.write_all(serde_json::to_string(&res).unwrap().as_bytes()).unwrap();
+    0
+}
+
+fn main() {
+    let args: Vec<String> = std::env::args().collect();
+    let code = match args.get(1).map(|s| s.as_str()) {
+        Some("replay") => cmd_replay(&args[2..]),
+        _ => {
+            eprintln!("usage: taverif replay --prop Cxx --tier quick|thorough --seed N --in FILE --out FILE");
+            2
+        }
+    };
+    std::process::exit(code);
+}
